@@ -60,6 +60,11 @@ CLAIMED = {
   ref="DESIGN.md §6 C19",
   note="Partial: the dithering clauses (acts only where advertised and requested; colour-only leaves stored alpha, alpha-only leaves stored colour) are decided by an oracle on the real encoder outputs, not by a theorem - the quantisers are f32 code outside the model; the internal Flags bit values (DITHER_ALPHA = 0x16) are not observable through the public API and are not modelled. Trusted: Coq kernel; tables regenerated from /repo through the public API and a validated source scan.",
   tech="Coq proof (symbolic case analysis + finite table theorems by vm_compute on regenerated tables) + differential execution + dithering oracle"),
+ "C17": dict(
+  text="Coq theorems in exact rational arithmetic: for ANY order in which the fragment jobs finish (any permutation of the fragment heights, each submit atomic) the shared progress counter strictly increases within [1, h] and every worker report lies strictly between 0 and 1, so 100% is only reported by the explicit final report; projected reports stay inside their (nested) range and are monotone; the per-mip-level ranges 1-0.4^l .. 1-0.4^(l+1) tile [0,1) so reports of later levels never fall below earlier ones; because the Encoder call ends with checked_report(1.0), a cancellation requested at any earlier report makes the call return Cancelled, and a pre-cancelled call whose first event is the entry check writes nothing. The parallel path is tied to the code by comparing the observed worker increments with the fragment heights of the C14 model; the remaining clauses are implementation-only oracles under imposed completion orders and cancellation at every report index.",
+  ref="DESIGN.md §6 C17",
+  note="Partial: real thread schedules, the mutex and the visibility of the cancellation flag are runtime behaviour (exercised under hook-imposed orders, not proved); reported values are exact rationals in the model, f32 rounding is excluded as the property allows; the per-encoder report points of the sequential encoders are not modelled (their sequences are checked by the oracle only). Cancellation requested at a report that already says 100% is unspecified and excluded.",
+  tech="Coq proof (list/permutation lemmas, rational arithmetic with nra, trace induction) + differential execution of worker increments + cancellation/monotonicity oracles"),
 }
 WIP = "check not built yet (work in progress, see DESIGN.md §10 staging); proof applies and is planned"
 
